@@ -329,6 +329,7 @@ def prov_reg(ctx: Ctx, chk) -> None:
                 chk.ok(rule, key, "; ".join(g[0] for g in got) or "no registry write", got[0][1].where if got else "", sample=(name, ) not in seen_defs and len(seen_defs) < 4)
                 seen_defs.add((name,))
             else:
+                _unmodelled_effects(ctx, name, V, want, extra, [fi for _f, fi in fis])
                 for alts in missing:
                     f0 = callee.chain()[-1].func
                     chk.refute(rule, f"{name}::missing::{alts[0]}", f"handler {name} (protocol {V}) does not perform the registry write `{alts[0]}`; it performs {[g[0] for g in got] or 'none'}", f0.where, version=V)
@@ -337,6 +338,62 @@ def prov_reg(ctx: Ctx, chk) -> None:
                 for alts in dup:
                     chk.refute(rule, f"{name}::duplicate::{alts[0]}", f"the write `{alts[0]}` is performed more than once along the handler chain of {name} (protocol {V})", callee.chain()[-1].func.where, version=V)
     chk.floor(rule, "handler-table cells with registry effects", n, 25)
+
+
+_PURE_CALLS = ("int", "float", "round", "str", "len", "min", "max", "abs", "bool", "get", "Node", "Child", "dict", "list", "tuple")
+
+
+def _unmodelled_effects(ctx: Ctx, name: str, V: str, want, extra, fis) -> None:
+    """Before a difference to the table is reported: a write whose term goes through repository code the comparison
+    does not look into (a value object, a conditional expression that depends on a run-time value), or a handler that
+    reaches the registry through a private collaborator class of the package, is not *known* to differ - no verdict."""
+    from .common import callee_names
+
+    allowed = set(_PURE_CALLS)
+    for alts in want:
+        for a in alts:
+            try:
+                for n_ in ast.walk(ast.parse(a.split(" ", 1)[1] if " " in a else a, mode="exec")):
+                    if isinstance(n_, ast.Call):
+                        allowed.add(n_.func.id if isinstance(n_.func, ast.Name) else n_.func.attr if isinstance(n_.func, ast.Attribute) else "")
+            except SyntaxError:
+                continue
+    for ev, f, node in extra:
+        body = ev.split(" ", 1)[1] if " " in ev else ev
+        try:
+            tr_ = ast.parse(body, mode="exec")
+        except SyntaxError:
+            continue
+        for n_ in ast.walk(tr_):
+            if isinstance(n_, ast.IfExp):
+                raise AnalysisError(f"registry writes: the write `{ev[:90]}` of {name} (protocol {V}) chooses its value at run time (conditional expression): not compared with the table")
+            if isinstance(n_, ast.Call):
+                nm_ = n_.func.id if isinstance(n_.func, ast.Name) else n_.func.attr if isinstance(n_.func, ast.Attribute) else ""
+                if nm_ not in allowed:
+                    raise AnalysisError(f"registry writes: the write `{ev[:90]}` of {name} (protocol {V}) goes through `{nm_}(...)`, which the comparison with the table does not look into")
+    for fi in fis:
+        for n_ in ctx.own_nodes(fi):
+            if not (isinstance(n_, ast.Call) and isinstance(n_.func, (ast.Name, ast.Attribute))):
+                continue
+            try:
+                names = callee_names(ctx, fi, n_)
+            except AnalysisError:
+                continue
+            for nm in names:
+                if not nm.startswith("aiomysensors."):
+                    continue
+                try:
+                    h = ctx.func(nm)
+                except (AnalysisError, KeyError):
+                    try:
+                        c_ = ctx.cls(nm)
+                    except (AnalysisError, KeyError):
+                        continue
+                    if c_.name.startswith("_"):
+                        raise AnalysisError(f"registry writes: {name} (protocol {V}) reaches the registry through the private collaborator class {c_.name} (`{norm(n_)[:60]}`), which is not written out: its writes are not compared with the table")
+                    continue
+                if h is not None and h.cls is not None and h.cls.name.startswith("_"):
+                    raise AnalysisError(f"registry writes: {name} (protocol {V}) reaches the registry through the private collaborator class {h.cls.name} (`{norm(n_)[:60]}`), which is not written out: its writes are not compared with the table")
 
 
 def must_reg(ctx: Ctx, chk) -> None:
@@ -386,6 +443,9 @@ def must_reg(ctx: Ctx, chk) -> None:
                 if p is None:
                     chk.ok(rule, key, "every normal path records the report or delegates to the next chain element", f.where, sample=n <= 3)
                 else:
+                    # a write that is there but is spelled through repository code the table comparison does not look
+                    # into is not a missing write: no verdict (same test as PROV-REG)
+                    _unmodelled_effects(ctx, name, V, want, [(ev, f, node) for ev, node in registry_events(ctx, fi) if ev not in alts], [fi])
                     chk.refute(rule, key, f"a normal path through {f.qualname} returns without recording the report and without delegating ({' -> '.join(g.path_text(p)[1:5])}): a received {name[7:]} message is yielded as handled but the registry does not reflect it", f.where, version=V)
     chk.floor(rule, "chain definitions of reporting handlers", n, 8)
 
